@@ -410,7 +410,7 @@ func hostileMutate(t *rapid.T, root *ye.Node, n int, focus ...*ye.Node) []string
 				o := cs[rapid.IntRange(0, len(cs)-1).Draw(t, "soupslot")]
 				var b strings.Builder
 				for i := rapid.IntRange(1, 8).Draw(t, "nsoup"); i > 0; i-- {
-					b.WriteString(rapid.SampledFrom([]string{"a", "b", "v1", "/", "@", ".", "..", ":", "-", "~", "\\", "*", " ", "./", "docker://", "=", ",", "0", "9"}).Draw(t, "soup"))
+					b.WriteString(rapid.SampledFrom([]string{"a", "b", "v1", "/", "@", ".", "..", ":", "-", "~", "\\", "*", " ", "./", "docker://", "=", ",", "0", "9", "TZ=", "CRON_TZ=", "UTC", "@every", "*/5", "@"}).Draw(t, "soup"))
 				}
 				o.parent.Vals[o.idx] = ye.Q(b.String(), rapid.SampledFrom([]ye.Style{ye.Single, ye.Double}).Draw(t, "soupst"))
 				kinds = append(kinds, "separator-soup@"+o.parent.Keys[o.idx].Val)
